@@ -309,6 +309,10 @@ def first_diff_op(case, a, c):
 
 def compare(ck, cases, impl_out, model_out, spec_out):
     for case, a, b, c in zip(cases, impl_out, model_out, spec_out):
+        if "<missing>" in (a, b, c):
+            # a runner died or timed out (reported by run_cases as an internal failure): nothing to classify
+            ck.count("cases_without_output")
+            continue
         nops = case.count(",") + 1
         ck.case(key=case, nontrivial=("c" in case and nops >= 4))
         ck.hist("history_length", min(nops // 10 * 10, 100))
@@ -342,13 +346,24 @@ def compare(ck, cases, impl_out, model_out, spec_out):
 
 def run_cases(ck, cases, exe_impl, exe_model):
     import concurrent.futures as cf
-    with cf.ThreadPoolExecutor(max_workers=3) as ex:
-        f1 = ex.submit(core.run_sharded, exe_impl, [], cases)
-        f2 = ex.submit(core.run_sharded, exe_model, [], cases)
-        f3 = ex.submit(core.run_sharded, exe_model, ["spec"], cases)
-        (rc1, impl_out, e1), (rc2, model_out, e2), (rc3, spec_out, e3) = f1.result(), f2.result(), f3.result()
-    if rc1 or rc2 or rc3:
-        ck.obligation("correspondence-run", "internal", False, "rc=%s/%s/%s %s %s %s" % (rc1, rc2, rc3, e1, e2, e3))
+    # generous per-shard limit: the machine may be shared with other builds
+    tmo = 1800 if ck.tier == "quick" else 6 * 3600
+    impl_out, model_out, spec_out = [], [], []
+    # batches keep memory bounded and make a dead runner cost one batch, not the whole run
+    step = 20000
+    for lo in range(0, len(cases), step):
+        part = cases[lo:lo + step]
+        with cf.ThreadPoolExecutor(max_workers=3) as ex:
+            f1 = ex.submit(core.run_sharded, exe_impl, [], part, None, tmo)
+            f2 = ex.submit(core.run_sharded, exe_model, [], part, None, tmo)
+            f3 = ex.submit(core.run_sharded, exe_model, ["spec"], part, None, tmo)
+            (rc1, o1, e1), (rc2, o2, e2), (rc3, o3, e3) = f1.result(), f2.result(), f3.result()
+        if rc1 or rc2 or rc3:
+            ck.obligation("correspondence-run", "internal", False,
+                          "a runner failed or timed out (no verdict for its cases): rc impl/model/spec=%s/%s/%s %s %s %s" % (rc1, rc2, rc3, e1[-300:], e2[-300:], e3[-300:]))
+        impl_out += o1
+        model_out += o2
+        spec_out += o3
     compare(ck, cases, impl_out, model_out, spec_out)
     return impl_out, model_out, spec_out
 
@@ -356,7 +371,7 @@ def run_cases(ck, cases, exe_impl, exe_model):
 def generate(ck):
     rng = core.SplitMix64(ck.seed * 1000003 + 17)
     cases = []
-    n = 2000 if ck.tier == "quick" else 60000
+    n = 2000 if ck.tier == "quick" else 30000
     for i in range(n):
         B = rng.choice(BS)
         profile = rng.weighted([("small", 3), ("deep", 4), ("slice", 3), ("mixed", 2)])
@@ -375,7 +390,19 @@ def generate(ck):
 
 
 def run(ck):
-    ck.coq("Props.C17", extra_targets=["Vector/Examples.vo", "Vector/RcExamples.vo"], clean=(ck.tier == "thorough"))
+    if ck.tier == "thorough":
+        # rebuild this property's own files from scratch (not the whole shared tree: other checks use it)
+        import glob
+        with core.Lock("coq"):
+            for pat in ("Vector/*", "Vector/.*", "Props/C17*", "Props/.C17*"):
+                for f in glob.glob(os.path.join(core.COQ, pat)):
+                    if f.endswith((".vo", ".vok", ".vos", ".glob", ".aux")):
+                        os.remove(f)
+    ck.coq("Props.C17", extra_targets=["Vector/Examples.vo", "Vector/RcExamples.vo"])
+    if ck.tier == "thorough":
+        rc, out = core.sh(["timeout", "1500", "coqchk", "-silent", "-o", "-Q", ".", "NV", "NV.Props.C17"], cwd=core.COQ, timeout=1600)
+        clean = rc == 0 and "Axioms: <none>" in out and "type-in-type: <none>" in out and "unsafe (co)fixpoints: <none>" in out and "positivity is assumed: <none>" in out
+        ck.obligation("coqchk NV.Props.C17 (no axioms, no unsafe flags)", "coqchk", clean, out[-1200:])
     ok = ck.harness(["c17"])
     exe_model = ck.model("C17.v")
     if not ok or not exe_model:
